@@ -297,7 +297,9 @@ CLAIMED = {
              "else (stale_parent_truthful); and after ANY history, pruning on or off, every earlier version is partially consistent with the "
              "current database (earlier_versions_consistent, under the run-level premise that no two different nodes among the versions "
              "of the run share a hash), so reading any earlier version through the current database is truthful-or-raises "
-             "(old_version_read_truthful). Modelled not proved: the caller's reaction to "
+             "(old_version_read_truthful). The loop body AT RAW LEVEL (Model/WalkD.lean cstepD: root hash, the database as it is now, "
+             "a cache of raw node bodies) is the tree-level step or MissingTraversalNode for a node that really is absent "
+             "(raw_step_refines, raw_cache_invariant), and it is what each real walk step is compared with. Modelled not proved: the caller's reaction to "
              "that exception (drop the entry, go from the root) - tied by running real walks with the real cache "
              "against the model, each whole step compared with cstep as one transition.",
         technique="Lean 4 proof (walk invariant over arbitrary schedules, well-founded measure) + correspondence check on real walks",
